@@ -112,31 +112,38 @@ def resetsDict (cd0 : Dict) (d : Dec) (inherited : Bool) : Bool :=
   !wroteOwnSetattr d &&
     getattrOwnSetattr (applyWrites (fieldNames.foldl Dict.erase cd0) (builderWrites d)) inherited
 
+/-- after the writes the class has a `__setattr__` of its own (`_has_own_attribute(cls, "__setattr__")`) -/
+def dictOwnSetattr (cd0 : Dict) (d : Dec) : Bool :=
+  (applyWrites (fieldNames.foldl Dict.erase cd0) (builderWrites d)).has "__setattr__"
+
 /-- **dict build, any initial dict, any name** -/
 theorem get_patchOriginal (cd0 : Dict) (d : Dec) (inh : Bool) (n : String) :
     (patchOriginal cd0 d inh).get n =
-      if resetsDict cd0 d inh && n == "__setattr__" && !d.hasCustom then .objSetattr
+      if resetsDict cd0 d inh && n == "__setattr__" && !dictOwnSetattr cd0 d then .objSetattr
       else if resetsDict cd0 d inh && n == ownSetattrKey then .vFalse
       else (writeFor d n).getD (if fieldNames.contains n then .absent else cd0.get n) := by
-  unfold patchOriginal resetsDict
+  unfold patchOriginal resetsDict dictOwnSetattr hasOwn
   simp only
   have hk : ("__setattr__" == ownSetattrKey) = false := by decide
   have hk' : (ownSetattrKey == "__setattr__") = false := by decide
+  simp only [Dict.has_set, hk, Bool.false_or]
+  generalize (applyWrites (fieldNames.foldl Dict.erase cd0) (builderWrites d)).has "__setattr__" = own
   cases hr : (!wroteOwnSetattr d &&
       getattrOwnSetattr (applyWrites (fieldNames.foldl Dict.erase cd0) (builderWrites d)) inh)
   · simp [get_written, get_foldl_erase]
   · simp only [if_true, Bool.true_and]
     by_cases h1 : n = "__setattr__"
     · subst h1
-      cases d.hasCustom <;> simp [Dict.get_set, get_written, get_foldl_erase, hk]
+      cases own <;> simp [Dict.get_set, get_written, get_foldl_erase, hk]
     · by_cases h2 : n = ownSetattrKey
       · subst h2
-        cases d.hasCustom <;> simp [Dict.get_set, hk']
+        cases own <;> simp [Dict.get_set, hk']
       · have h1' : (n == "__setattr__") = false := by simpa using h1
         have h2' : (n == ownSetattrKey) = false := by simpa using h2
-        cases d.hasCustom <;> simp [Dict.get_set, h1', h2', get_written, get_foldl_erase]
+        cases own <;> simp [Dict.get_set, h1', h2', get_written, get_foldl_erase]
 
-def resetsSlots (d : Dec) (direct : Bool) : Bool := !wroteOwnSetattr d && !d.hasCustom && direct
+def resetsSlots (cd0 : Dict) (d : Dec) (direct : Bool) : Bool :=
+  !wroteOwnSetattr d && !cd0.has "__setattr__" && direct
 
 /-- `type()` finds `__eq__` but no `__hash__` in the namespace attrs hands it -/
 def slotsImplicitHash (cd0 : Dict) (d : Dec) : Bool :=
@@ -147,7 +154,7 @@ def slotsNs (cd0 : Dict) (d : Dec) (direct : Bool) : Dict :=
   let c2 := slotsDropped.foldl Dict.erase (applyWrites cd0 (builderWrites d))
   if !wroteOwnSetattr d then
     let c := c2.set ownSetattrKey .vFalse
-    if !d.hasCustom && direct then c.set "__setattr__" .objSetattr else c
+    if !hasOwn cd0 "__setattr__" && direct then c.set "__setattr__" .objSetattr else c
   else c2
 
 theorem createSlots_eq (cd0 : Dict) (d : Dec) (direct : Bool) :
@@ -155,42 +162,44 @@ theorem createSlots_eq (cd0 : Dict) (d : Dec) (direct : Bool) :
 
 theorem get_slotsNs (cd0 : Dict) (d : Dec) (direct : Bool) (n : String) :
     (slotsNs cd0 d direct).get n =
-      if resetsSlots d direct && n == "__setattr__" then .objSetattr
+      if resetsSlots cd0 d direct && n == "__setattr__" then .objSetattr
       else if !wroteOwnSetattr d && n == ownSetattrKey then .vFalse
       else if slotsDropped.contains n then .absent
       else (writeFor d n).getD (cd0.get n) := by
-  unfold slotsNs resetsSlots
+  unfold slotsNs resetsSlots hasOwn
+  generalize hown : cd0.has "__setattr__" = own
   have hk : ("__setattr__" == ownSetattrKey) = false := by decide
   have hk' : (ownSetattrKey == "__setattr__") = false := by decide
   simp only
   by_cases h1 : n = "__setattr__"
   · subst h1
-    cases (wroteOwnSetattr d) <;> cases d.hasCustom <;> cases direct <;>
+    cases (wroteOwnSetattr d) <;> cases own <;> cases direct <;>
       simp [Dict.get_set, get_foldl_erase, get_written, hk]
   · by_cases h2 : n = ownSetattrKey
     · subst h2
-      cases (wroteOwnSetattr d) <;> cases d.hasCustom <;> cases direct <;>
+      cases (wroteOwnSetattr d) <;> cases own <;> cases direct <;>
         simp [Dict.get_set, get_foldl_erase, get_written, hk']
     · have h1' : (n == "__setattr__") = false := by simpa using h1
       have h2' : (n == ownSetattrKey) = false := by simpa using h2
-      cases (wroteOwnSetattr d) <;> cases d.hasCustom <;> cases direct <;>
+      cases (wroteOwnSetattr d) <;> cases own <;> cases direct <;>
         simp [Dict.get_set, get_foldl_erase, get_written, h1', h2']
 
 theorem has_slotsNs (cd0 : Dict) (d : Dec) (direct : Bool) (m : String)
     (h1 : (m == ownSetattrKey) = false) (h2 : (m == "__setattr__") = false)
     (h3 : slotsDropped.contains m = false) :
     (slotsNs cd0 d direct).has m = ((writeFor d m).isSome || cd0.has m) := by
-  unfold slotsNs
+  unfold slotsNs hasOwn
   simp only
+  generalize cd0.has "__setattr__" = own
   have h3' : ¬ m ∈ slotsDropped := by simpa using h3
-  cases (wroteOwnSetattr d) <;> cases d.hasCustom <;> cases direct <;>
+  cases (wroteOwnSetattr d) <;> cases own <;> cases direct <;>
     simp [Dict.has_set, has_foldl_erase, has_written, h1, h2, h3']
 
 /-- **slotted build, any initial dict, any name** -/
 theorem get_createSlots (cd0 : Dict) (d : Dec) (direct : Bool) (n : String) :
     (createSlots cd0 d direct).get n =
       if n == "__hash__" && slotsImplicitHash cd0 d then .pyNone
-      else if resetsSlots d direct && n == "__setattr__" then .objSetattr
+      else if resetsSlots cd0 d direct && n == "__setattr__" then .objSetattr
       else if !wroteOwnSetattr d && n == ownSetattrKey then .vFalse
       else if slotsDropped.contains n then .absent
       else (writeFor d n).getD (cd0.get n) := by
